@@ -164,3 +164,12 @@ Example C02_history_example :
   [] ++ L_Client NatUnrestricted (Some 8) 101 (Some 1%nat) ::
   [L_RvOffer 1; L_RvOffer 0; L_RvForward 0; L_RvForward 1; L_Answer 2 502; L_Answer 1 501].
 Proof. reflexivity. Qed.
+
+(* The default bridge on the wire (C12's decoder composed with the matching machine): a client poll whose JSON has no
+   fingerprint field decodes to the default fingerprint, i.e. to what [fp_of None] stands for. *)
+From Coq Require Import String.
+From Snow Require Import Lib.Wire Model.JsonBoundary Model.Messages Proofs.MessagesProofs Proofs.BrokerWireProofs.
+
+Theorem C02_wire_default_bridge : forall v o n f,
+  decode_client_poll_body v = Ok (o, n, f) -> absent "fingerprint"%string v -> f = DEFAULT_FINGERPRINT.
+Proof. exact client_absent_fingerprint_names_default. Qed.
